@@ -27,7 +27,16 @@ func NewWhere(filter string) (*Where, error) {
 func (w *Where) CheckListPostConstraints(r ListRequest, child *Selection, key []val.Value) (bool, bool, error) {
 	target := (r.Base != nil && r.Base.Meta == r.Meta)
 	if target && child.InsideList {
-		match, err := child.XPredicate(w.xpathFilter)
+		// the filter is evaluated on the data as it is: if its path comes by this list again
+		// (a step up and down again, a recursive schema) the filter does not apply to itself
+		unfiltered, err := child.makeCopy()
+		if err != nil {
+			return false, false, err
+		}
+		for s := unfiltered; s != nil; s = s.parent {
+			s.Constraints = s.Constraints.without(w)
+		}
+		match, err := unfiltered.XPredicate(w.xpathFilter)
 		return true, match, err
 	}
 	return true, true, nil
